@@ -490,24 +490,42 @@ def r4_ancillary_seeding(ctx):
     for c in sets:
         key = norm(c.func.value.slice)
         val = kwarg(c, "value") or (c.args[0] if c.args else None)
-        conds = conditions_at(c)
-        has_member = any(a.pol and a.text == f"{key} in params"
-                         for a in conds)
+        # enclosing loop over the ancillary dictionary
+        loop = c
+        while loop is not None and not isinstance(loop, ast.For):
+            loop = getattr(loop, "_parent", None)
+        if loop is None:
+            raise Undecided("ancillary seeding is not inside a for loop")
         vtxt = norm(val)
-        nan_guard = any((not a.pol) and a.text in (
+        from_anc = False
+        if isinstance(val, ast.Subscript) and norm(val.slice) == key:
+            from_anc = True
+        elif isinstance(loop.target, ast.Tuple) and len(
+                loop.target.elts) == 2 and isinstance(loop.iter, ast.Call) \
+                and isinstance(loop.iter.func, ast.Attribute) \
+                and loop.iter.func.attr == "items" \
+                and norm(loop.target.elts[0]) == key \
+                and norm(loop.target.elts[1]) == vtxt:
+            from_anc = True
+        conds = conditions_at(c, stop=loop)
+        member = [a for a in conds if a.pol and a.text == f"{key} in params"]
+        nan = [a for a in conds if (not a.pol) and a.text in (
             f"np.isnan({vtxt})", f"numpy.isnan({vtxt})",
-            f"math.isnan({vtxt})") for a in conds)
-        from_anc = isinstance(val, ast.Subscript) and norm(val.slice) == key
-        ctx.check(has_member, c, f"{norm(c)} guarded by membership",
+            f"math.isnan({vtxt})")]
+        extra = [a for a in conds if a not in member and a not in nan]
+        ctx.check(bool(member), c, f"{norm(c)} guarded by membership",
                   f"ancillary '{key}' seeds a parameter without testing "
                   f"`{key} in params`")
-        ctx.check(nan_guard, c, f"{norm(c)} guarded by NaN test",
+        ctx.check(bool(nan), c, f"{norm(c)} guarded by NaN test",
                   "a NaN ancillary value overwrites the parameter's initial "
                   "value")
         ctx.check(from_anc, c, f"{norm(c)} takes the ancillary of the same "
                   "key", "parameter seeded from a different ancillary key")
-        # the dict iterated is what get_ancillary_parameters returned
-        loops = [a.origin for a in conds]
+        ctx.check(not extra, c, f"{norm(c)} under no further condition",
+                  "a non-NaN ancillary whose key matches a fit parameter is "
+                  "not used as initial value when "
+                  + " / ".join(repr(a) for a in extra)
+                  + " fails (e.g. a value of exactly 0)")
     # the loop must be reachable with the default arguments: not disabled
     core = ctx.repo.mod("model.core")
     gk = core.methods("NaniteFitModel").get("get_anc_parm_keys")
